@@ -26,7 +26,7 @@ type c18Op struct {
 	F    FilterSpec `json:"f,omitempty"`
 	Rw   *RwSpec    `json:"rw,omitempty"`
 	Addr string     `json:"addr,omitempty"`
-	Set  []string   `json:"set,omitempty"` // modRoute/modDest: which options the command names
+	Set  []string   `json:"set,omitempty"`           // modRoute/modDest: which options the command names
 	Bad  bool       `json:"invalid_regex,omitempty"` // modRoute/modDest: one of several named options has a value that does not compile: the command must fail and change nothing
 }
 
